@@ -19,7 +19,17 @@ struct CheckDef {
 }
 
 fn defs() -> Vec<CheckDef> {
-    vec![CheckDef { id: "C05", worker: checks::c05::worker, replay: Some(checks::c05::replay), crash_is_violation: true }]
+    vec![
+        CheckDef { id: "C01", worker: checks::c01::worker, replay: Some(checks::c01::replay), crash_is_violation: true },
+        CheckDef { id: "C08", worker: checks::c08::worker, replay: Some(checks::c08::replay), crash_is_violation: false },
+        CheckDef { id: "C09", worker: checks::c09::worker, replay: Some(checks::c09::replay), crash_is_violation: false },
+        CheckDef { id: "C10", worker: checks::c10::worker, replay: Some(checks::c10::replay), crash_is_violation: false },
+        CheckDef { id: "C02", worker: checks::c02::worker, replay: Some(checks::c02::replay), crash_is_violation: false },
+        CheckDef { id: "C03", worker: checks::c03::worker, replay: Some(checks::c03::replay), crash_is_violation: false },
+        CheckDef { id: "C04", worker: checks::c04::worker, replay: Some(checks::c04::replay), crash_is_violation: false },
+        CheckDef { id: "C07", worker: checks::c07::worker, replay: Some(checks::c07::replay), crash_is_violation: false },
+        CheckDef { id: "C05", worker: checks::c05::worker, replay: Some(checks::c05::replay), crash_is_violation: true },
+    ]
 }
 
 fn seed() -> u64 {
